@@ -5,6 +5,8 @@ ASSUMPTIONS = [
     "ground truth of 'what changed' is kept by the harness, which made the edits",
     "forced builds, generators and in-memory products are outside the claim and are not generated / not judged",
     "products of after-targets count as tracked (pytask records them as neighbours); NaN-like hashed values are not generated",
+    "Lean side (Properties/C03.lean): state = content id (time stamps are not part of the model: the (path, mtime) memo, finding F4, is C12's subject); "
+    "WF P (unique task ids, a task lists a product once, module files are not products) is a hypothesis of C03_repeat",
 ]
 EDITS = ["touch", "touch", "rewrite_same", "rewrite_same", "write", "revert", "bump", "revert_module", "tamper", "delete_product", "add_task"]
 CFGS = [{}, {}, {}, {"k": "task_t00x"}, {"k": "task_t01x or task_t02x"}, {"dry": True}, {"force": True}]
